@@ -169,7 +169,11 @@ class Explorer:
             return self._class_ref(module, name)
         if name in module.consts:
             try:
-                return self.eval_const(run, module, name)
+                v = self.eval_const(run, module, name)
+                if isinstance(v, Conc) and isinstance(v.obj, tuple) and v.obj[0] in ("emptydict", "emptylist") and not run.spec:
+                    # a module-level mutable container that the contract's footprint (`globals=`) does not declare
+                    return Conc(("unmodelled_global", name, "module-level mutable container"))
+                return v
             except EngineError as e:
                 if run.spec:
                     raise
@@ -330,7 +334,9 @@ class Explorer:
                     run.oblige(f"frame#{obj.obj[1]}", z3.BoolVal(False), kind="frame",
                                note=f"{self.c.fq} mutates the module-level object `{obj.obj[1]}` ({attr} at line {node.lineno}), which is outside the frame of its contract")
                     raise PathEnd()
-                raise EngineError(f"use of unmodelled module-level object {obj.obj[1]}: {obj.obj[2]}")
+                run.oblige(f"frame#{obj.obj[1]}", z3.BoolVal(False), kind="frame",
+                           note=f"{self.c.fq} uses the module-level object `{obj.obj[1]}` (.{attr} at line {node.lineno}), which is outside the footprint of its contract ({obj.obj[2]})")
+                raise PathEnd()
             if isinstance(obj, Val) and isinstance(obj.ty, TDict) and attr == "setdefault" and len(node.args) == 2:
                 key = run.ev(node.args[0], fr)
                 dflt = run.ev_typed(node.args[1], fr, obj.ty.v)
